@@ -126,6 +126,9 @@ def coq_build(targets=None, jobs=16):
 COMPONENT_OWNER = {
     "Proofs/PgTieProofs.vo": "C13",      # static tie of the Postgres store: depends on Gen/PgTie.v (translate/pgtie.go)
     "Properties/C13pg.vo": "C13",
+    "Proofs/AdminProxyShape.vo": "C14",  # retry policy / proxied methods of the MCP Admin-proxy transport: depend on Gen/AdminProxy.v (translate/adminproxy.go)
+    "Proofs/ManageProxyProofs.vo": "C14",
+    "Properties/C14proxy.vo": "C14",
 }
 
 
@@ -150,6 +153,31 @@ def coq_check_property_file(prop):
     finally:
         lock.close()
     return rc == 0, names, out
+
+
+def coq_check_property_files(props, jobs=8):
+    """Force-recompile several Properties/<prop>.v files with one parallel make.
+    Returns {prop: (ok, theorem names)}, combined log."""
+    out = {}
+    lock = coq_lock()
+    try:
+        targets = []
+        for prop in props:
+            src = os.path.join(COQ, "Properties", prop + ".v")
+            txt_nc = re.sub(r"\(\*.*?\*\)", "", open(src).read(), flags=re.S)
+            out[prop] = [False, re.findall(r"^\s*(?:Theorem|Lemma|Corollary)\s+([A-Za-z0-9_']+)", txt_nc, flags=re.M)]
+            for ext in (".vo", ".glob", ".vok", ".vos"):
+                try:
+                    os.remove(src[:-2] + ext)
+                except FileNotFoundError:
+                    pass
+            targets.append("Properties/%s.vo" % prop)
+        rc, log = run(["make", "-k", "-j%d" % jobs] + targets, cwd=COQ, timeout=1800)
+        for prop in props:
+            out[prop][0] = os.path.exists(os.path.join(COQ, "Properties", prop + ".vo"))
+    finally:
+        lock.close()
+    return {k: tuple(v) for k, v in out.items()}, log
 
 
 def parse_assumptions(log):
